@@ -538,7 +538,7 @@ pub fn run(ctx: &Ctx) {
     ctx.par_proptest(
         "writer",
         n,
-        || (gen::arb_typed(scfg.clone(), ValCfg { max_len: 140, max_seq: 4 }), arb_sched()),
+        || (gen::arb_typed(ShapeCfg { encoder_only: true, ..scfg.clone() }, ValCfg { max_len: 140, max_seq: 4 }), arb_sched()),
         |((s, v), sched), l| check_writer(s, v, sched, l),
     );
     let n = ctx.tier.pick(12_000, 120_000);
@@ -609,7 +609,7 @@ pub fn run(ctx: &Ctx) {
     );
     // payload length sweep on the writer side: every str/bytes length 0..=600 followed by a one-byte / varint / float field
     {
-        let kinds = 6u64;
+        let kinds = 8u64;
         ctx.par_range("writer-length-sweep", 601 * kinds, move |i, l| {
             let n = (i / kinds) as usize;
             let (s, v): (Shape, Value) = match i % kinds {
@@ -621,6 +621,15 @@ pub fn run(ctx: &Ctx) {
                 ),
                 3 => (Shape::Tuple(vec![Shape::Bytes, Shape::U32]), Value::List(vec![Value::Bytes(vec![1; n]), Value::U(70000)])),
                 4 => (Shape::Tuple(vec![Shape::U8, Shape::Str, Shape::F32]), Value::List(vec![Value::U(1), Value::Str("z".repeat(n)), Value::F32(0x3FC0_0000)])),
+                // Display-collected text (its length is only known after formatting), alone in front and behind other fields
+                5 => (
+                    Shape::Tuple(vec![Shape::U16, Shape::DisplayStr, Shape::Bool]),
+                    Value::List(vec![Value::U(300), Value::Pieces("t".repeat(n).as_bytes().chunks(17).map(|c| String::from_utf8(c.to_vec()).unwrap()).collect()), Value::Bool(true)]),
+                ),
+                6 => (
+                    Shape::Tuple(vec![Shape::Str, Shape::DisplayStr]),
+                    Value::List(vec![Value::Str("p".repeat(n / 3)), Value::Pieces(vec!["q".repeat(n)])]),
+                ),
                 _ => (
                     Shape::Seq(Box::new(Shape::Tuple(vec![Shape::Str, Shape::I8]))),
                     Value::List(vec![Value::List(vec![Value::Str("w".repeat(n)), Value::I(-3)]), Value::List(vec![Value::Str("w".repeat(n / 2)), Value::I(5)])]),
